@@ -150,6 +150,12 @@ func (c *compiler) compileFile(astFile *ast.File, pkg *pkg.Package) *file {
 				p := obj.(*types.PkgName)
 				importName = p.Name()
 			}
+			if importName == "_" || importName == "." {
+				// Neither is a name that code can refer to the package
+				// by: generated code that needs the package imports it
+				// (again) under a name of its own.
+				return false
+			}
 			file.Imports[importPath] = append(file.Imports[importPath], importName)
 			file.UnnamedImports[importPath] = struct{}{}
 			return false
